@@ -179,6 +179,11 @@ def run_stage(scratch, bindir, cmd, tier, seed, stage, race=False, extra_args=()
                "violations": [], "inconclusive": [], "no_verdict": 0, "extra": {}, "min_met": False,
                "min_note": "harness stage %s produced no report (rc=%s)" % (stage, rc), "crashed": True,
                "crash_tail": tail, "rc": rc}
+    for k in ("distinct_keys", "samples", "violations", "inconclusive"):
+        if rep.get(k) is None:
+            rep[k] = []
+    if rep.get("extra") is None:
+        rep["extra"] = {}
     rep["stage_wall_s"] = dt
     rep["races"] = races
     rep["log_tail"] = tail[-1500:]
